@@ -35,20 +35,20 @@ theorem out_of_range (env : Env) (be : Backend) (i : Inst) (frags : List Bytes) 
 
 theorem fidelity_rs (env : Env) (k m ct : Nat) (hk : 1 ≤ k) (hkm : k + m ≤ 32) (hct : ct < 256)
     (hlv : env.libver < 2 ^ 32) (hl0 : env.libver ≠ 0)
-    (data : Bytes) (hlen : data.length < 2 ^ 31 - 2 ^ 12) (enc frags : List Bytes)
+    (data : Bytes) (enc frags : List Bytes)
     (henc : encode env (rsBackend (genEntry k) k m) (rsInst k m ct) data = .ok enc)
     (hsub : ∀ f ∈ frags, f ∈ enc) (hmiss : (missingOfStripe enc frags).length ≤ m)
     (dest : Nat) (hd : dest < k + m) :
     reconstruct env (rsBackend (genEntry k) k m) (rsInst k m ct) frags
         (80 + blockSize (rsInst k m ct) data.length) dest = .ok (enc.getD dest []) :=
   fidelity env _ (rsInst k m ct) data enc frags (rs_encodeOK k m) (rs_decodeOK (by omega))
-    (blockSize_even _ _ hk rfl) (rs_frontOK env k m ct data.length hk hkm hct hlv hl0 hlen) henc hsub
+    (blockSize_even _ _ hk rfl) (rs_frontOK_guard env k m ct data.length hk hkm hct hlv hl0 (encodeTooLarge_false_of_ok henc)) henc hsub
     hmiss hmiss dest hd
 
 theorem fidelity_xor (env : Env) (k m hd ct : Nat) (T : XorTable)
     (hT : LecGen.xorTableFor hd m k = some T) (hct : ct < 256)
     (hlv : env.libver < 2 ^ 32) (hl0 : env.libver ≠ 0)
-    (data : Bytes) (hlen : data.length < 2 ^ 31 - 2 ^ 12) (enc frags : List Bytes)
+    (data : Bytes) (enc frags : List Bytes)
     (henc : encode env (xorBackend T) (xorInst k m ct) data = .ok enc)
     (hsub : ∀ f ∈ frags, f ∈ enc) (hmiss : (missingOfStripe enc frags).length < hd)
     (dest : Nat) (hd' : dest < k + m) :
@@ -58,7 +58,7 @@ theorem fidelity_xor (env : Env) (k m hd ct : Nat) (T : XorTable)
   have hshape : xorShapeOK T.k T.m T.hd = true := by rw [xorTables_whitelist, hT]; rfl
   obtain ⟨hE, hD, _, h1, h2⟩ := xor_contracts_for hT
   exact fidelity env _ (xorInst T.k T.m ct) data enc frags hE hD trivial
-    (xor_frontOK env T.k T.m T.hd ct data.length hshape hct hlv hl0 hlen) henc hsub hmiss
+    (xor_frontOK_guard env T.k T.m T.hd ct data.length hshape hct hlv hl0 (encodeTooLarge_false_of_ok henc)) henc hsub hmiss
     (by simp only [xorInst]; omega) dest hd'
 
 /-- non-vacuity: (2,1), the parity fragment rebuilt from the two data fragments is identical. -/
